@@ -434,7 +434,42 @@ func TestDrv_C07(t *testing.T) {
 				case err != nil:
 					tr.Emit("Decode", KV{"res": "err", "err": err.Error()})
 				default:
-					tr.Emit("Decode", KV{"res": "rec", "r": render(&got)})
+					kv := KV{"res": "rec", "r": render(&got)}
+					if k < n { // the library's own notion of equality: the decoded record equals the original, and no longer once any one field differs
+						mut := got
+						switch r.Intn(12) {
+						case 0:
+							mut.Attack += "x"
+						case 1:
+							mut.Seq++
+						case 2:
+							mut.Code++
+						case 3:
+							mut.Timestamp = mut.Timestamp.Add(1)
+						case 4:
+							mut.Latency++
+						case 5:
+							mut.BytesIn++
+						case 6:
+							mut.BytesOut++
+						case 7:
+							mut.Error += "x"
+						case 8:
+							mut.Body = append(append([]byte{}, mut.Body...), 'x')
+						case 9:
+							mut.Method += "x"
+						case 10:
+							mut.URL += "x"
+						default:
+							mut.Headers = mut.Headers.Clone()
+							if mut.Headers == nil {
+								mut.Headers = http.Header{}
+							}
+							mut.Headers["X-Mut"] = append(mut.Headers["X-Mut"], "1")
+						}
+						kv["equal"], kv["mutant_equal"] = got.Equal(rs[k]), mut.Equal(rs[k])
+					}
+					tr.Emit("Decode", kv)
 				}
 			}
 			switch c.name {
